@@ -180,8 +180,12 @@ class Ownership:
                 allowed.append('existing')
         if allowed:
             return Expect(allowed, existing=same)
-        return Expect(['created'],
-                      new=Entry(DEST, mgr(mid) if owned else PERMANENT, name=name, url=url, ptype=pt))
+        new = Entry(DEST, mgr(mid) if owned else PERMANENT, name=name, url=url, ptype=pt)
+        if owned and ':' in ident:
+            # documented as not allowed, but not promised to be rejected: if the manager takes
+            # the id, the destination is an owned destination like any other
+            return Expect(['ValueError', 'created'], new=new)
+        return Expect(['created'], new=new)
 
     def add_filter(self, mid, s, owned, ident, valid_args=True):
         if not valid_args or not self.registered(mid, s):
